@@ -229,8 +229,11 @@ Proof.
 Qed.
 
 (* a piece with at least one statement, every statement counting at least one definition *)
+Definition NoPkg (d : list c10_utok) : Prop := exists k r, d = UId k :: r /\ c10_sc_is_kw "package" (UId k) = false.
 Definition PSd (top : bool) (text : str) : Prop :=
-  exists cooked ns, PS top text cooked ns /\ cooked <> [] /\ Forall (fun n => (1 <= n)%nat) ns.
+  exists cooked ns, PS top text cooked ns /\ cooked <> [] /\ Forall (fun n => (1 <= n)%nat) ns /\ Forall NoPkg cooked.
+Lemma nopkg_kw w r : str_eqb (lit w) (lit "package") = false -> NoPkg (kwt w :: r).
+Proof. intros H. exists (lit w), r. split; [reflexivity|exact H]. Qed.
 
 Lemma sum_ge ns : Forall (fun n => (1 <= n)%nat) ns -> (List.length ns <= fold_right plus O ns)%nat.
 Proof. induction 1 as [|n ns Hn _ IH]; cbn [fold_right List.length]; lia. Qed.
@@ -239,11 +242,13 @@ Lemma f2_length {A B} (R : A -> B -> Prop) l l' : Forall2 R l l' -> List.length 
 Proof. induction 1; cbn [List.length]; congruence. Qed.
 
 Lemma ps_concat top parts : Forall (PSd top) parts ->
-  exists cooked ns, PS top (List.concat parts) cooked ns /\ (List.length parts <= fold_right plus O ns)%nat.
+  exists cooked ns, PS top (List.concat parts) cooked ns /\ (List.length parts <= fold_right plus O ns)%nat /\ Forall NoPkg cooked /\
+                    (parts <> [] -> cooked <> []).
 Proof.
-  induction 1 as [|t r (c & n & Hps & Hne & Hn) _ (cs & ns & Hpss & Hlen)].
-  - exists [], []. split; [apply ps_nil|cbn; lia].
+  induction 1 as [|t r (c & n & Hps & Hne & Hn & Hk) _ (cs & ns & Hpss & Hlen & Hks & _)].
+  - exists [], []. split; [apply ps_nil|]. split; [cbn; lia|]. split; [constructor|congruence].
   - exists (c ++ cs), (n ++ ns). split; [cbn [List.concat]; apply ps_app; assumption|].
+    split; [|split; [apply Forall_app; split; assumption|intros _; destruct c; [congruence|discriminate]]].
     assert (G : fold_right plus O (n ++ ns) = (fold_right plus O n + fold_right plus O ns)%nat).
     { clear. induction n as [|x n IH]; [reflexivity|]. cbn [app fold_right]. rewrite IH. lia. }
     rewrite G. pose proof (sum_ge n Hn) as G2. destruct Hps as (_ & _ & _ & F2). pose proof (f2_length _ _ _ F2) as G3.
@@ -332,7 +337,8 @@ Lemma ps_alias docs name gs ty : forallb Proofs.C10Lex.c10_line_ok docs = true -
 Proof.
   intros Hd Hn Hg Hty. destruct (sc_show_tytext _ Hty) as (tx & Hf & Hgt).
   destruct (alias_shape name gs tx Hgt) as (S1 & S2 & S3).
-  exists [kwt "type" :: UId name :: gens_toks gs ++ UP 61 :: tx], [1%nat]. split; [|split; [discriminate|constructor; [lia|constructor]]].
+  exists [kwt "type" :: UId name :: gens_toks gs ++ UP 61 :: tx], [1%nat].
+  split; [|split; [discriminate|split; [constructor; [lia|constructor]|constructor; [apply nopkg_kw; reflexivity|constructor]]]].
   apply (ps_simple false _ docs (lit "type") _ 1 1); [|reflexivity|exact S1|exact S2|apply S3|apply stat_alias; [exact (proj2 Hn)|apply gnames_nm, Hg|exact Hgt]].
   intros b tb Hb. cbn [sc_render_decl]. rewrite <- !app_assoc. apply (sc_comments_cfrag 0 docs Hd).
   match goal with |- Tk _ ?t => replace t with (kwt "type" :: UId name :: gens_toks gs ++ UP 61 :: tx ++ UNl :: UNl :: tb)
@@ -343,13 +349,13 @@ Qed.
 (* the block of helper aliases: one line each, then an empty line *)
 Lemma ps_helper_lines l : Forall (fun nt : str * texp => gname (fst nt) /\ c10_scg_texp (snd nt)) l ->
   exists cooked ns, PS false (List.concat (map (fun nt : str * texp => lit "type " ++ fst nt ++ lit " = " ++ sc_show (snd nt) ++ sc_nl) l)) cooked ns /\
-                    List.length cooked = List.length l /\ Forall (fun n => (1 <= n)%nat) ns.
+                    List.length cooked = List.length l /\ Forall (fun n => (1 <= n)%nat) ns /\ Forall NoPkg cooked.
 Proof.
-  induction 1 as [|[n t] l [Hn Ht] _ (cs & ns & Hps & Hl & Hns)].
-  - exists [], []. split; [apply ps_nil|]. split; [reflexivity|constructor].
+  induction 1 as [|[n t] l [Hn Ht] _ (cs & ns & Hps & Hl & Hns & Hks)].
+  - exists [], []. split; [apply ps_nil|]. split; [reflexivity|split; constructor].
   - cbn [fst snd] in *. destruct (sc_show_tytext _ Ht) as (tx & Hf & Hgt). destruct (alias_shape n [] tx Hgt) as (S1 & S2 & S3).
     exists ([kwt "type" :: UId n :: gens_toks [] ++ UP 61 :: tx] ++ cs), ([1%nat] ++ ns).
-    split; [|split; [cbn [List.length app]; rewrite Hl; reflexivity|constructor; [lia|exact Hns]]].
+    split; [|split; [cbn [List.length app]; rewrite Hl; reflexivity|split; [constructor; [lia|exact Hns]|constructor; [apply nopkg_kw; reflexivity|exact Hks]]]].
     cbn [map List.concat]. apply ps_app; [|exact Hps].
     apply (ps_simple false _ [] (lit "type") _ 1 0); [|reflexivity|exact S1|exact S2|apply S3|apply stat_alias; [exact (proj2 Hn)|constructor|exact Hgt]].
     intros b tb Hb.
@@ -375,7 +381,8 @@ Lemma ps_empty_class top docs name : forallb Proofs.C10Lex.c10_line_ok docs = tr
   PSd top (sc_render_decl (SCEmptyClass docs name)).
 Proof.
   intros Hd [Hn1 Hn2].
-  exists [kwt "class" :: UId name :: kwt "extends" :: [UId (lit "Serializable")]], [1%nat]. split; [|split; [discriminate|constructor; [lia|constructor]]].
+  exists [kwt "class" :: UId name :: kwt "extends" :: [UId (lit "Serializable")]], [1%nat].
+  split; [|split; [discriminate|split; [constructor; [lia|constructor]|constructor; [apply nopkg_kw; reflexivity|constructor]]]].
   apply (ps_simple top _ docs (lit "class") _ 1 1); [|reflexivity|reflexivity| | |].
   - intros b tb Hb. cbn [sc_render_decl]. rewrite <- !app_assoc. apply (sc_comments_cfrag 0 docs Hd). cbn [repeat app].
     apply L_class. change (UId name :: ?x) with ([UId name] ++ x). apply (frag_ident name Hn1); [reflexivity|]. apply L_ext_ser, Hb.
@@ -476,7 +483,7 @@ Lemma ps_case_class top docs name gs ms : forallb Proofs.C10Lex.c10_line_ok docs
 Proof.
   intros Hd Hn Hg Hne Hms. destruct (members_text ms Hne Hms) as (raw & cooked & Hf & Hnr & Hc & Hcne).
   set (D := kwt "case" :: kwt "class" :: UId name :: gens_toks gs ++ UP 40 :: params_toks cooked ++ []).
-  exists [D], [1%nat]. split; [|split; [discriminate|constructor; [lia|constructor]]].
+  exists [D], [1%nat]. split; [|split; [discriminate|split; [constructor; [lia|constructor]|constructor; [apply nopkg_kw; reflexivity|constructor]]]].
   exists (docs_raw docs ++ kwt "case" :: kwt "class" :: UId name :: gens_toks gs ++ UP 40 :: UNl :: raw ++ [UNl; UNl]).
   split; [|split].
   - intros b tb Hb. cbn [sc_render_decl]. rewrite <- !app_assoc. apply (sc_comments_cfrag 0 docs Hd). cbn [app].
@@ -548,7 +555,7 @@ Proof.
   assert (Htm : TemplOk tm 1).
   { apply (templ_ext_body (UId parent :: gens_toks pg) body (fold_right plus O [1%nat])); [apply name_gens_type; assumption|].
     apply body_ok. constructor; [exact val_stat_ok|constructor]. }
-  exists [kwt "case" :: hr ++ tm], [1%nat]. split; [|split; [discriminate|constructor; [lia|constructor]]].
+  exists [kwt "case" :: hr ++ tm], [1%nat]. split; [|split; [discriminate|split; [constructor; [lia|constructor]|constructor; [apply nopkg_kw; reflexivity|constructor]]]].
   exists (docs_raw docs ++ (kwt "case" :: hr) ++ kwt "extends" :: (UId parent :: gens_toks pg) ++
           UP 123 :: UNl :: kwt "val" :: UId (lit "serialName") :: UP 58 :: UId (lit "String") :: UP 61 :: UStr :: UNl :: UP 125 :: [UNl]).
   split; [|split; [|constructor; [exact (Hst tm 1%nat Htm)|constructor]]].
@@ -664,12 +671,13 @@ Proof.
   intros Hd Hn Hg Hvs.
   assert (Hparts : Forall (PSd false) (map sc_render_variant vs)).
   { apply Forall_map. revert Hvs. apply Forall_impl. apply ps_variant. }
-  destruct (ps_concat false _ Hparts) as (vc & vn & (vraw & Hvf & Hvn & Hvst) & _).
+  destruct (ps_concat false _ Hparts) as (vc & vn & (vraw & Hvf & Hvn & Hvst) & _ & _ & _).
   set (tm1 := UP 123 :: seq_toks [def_stat] ++ [UP 125]).
   set (tm2 := UP 123 :: seq_toks vc ++ [UP 125]).
   set (D1 := kwt "sealed" :: kwt "trait" :: UId name :: gens_toks gs ++ tm1).
   set (D2 := [] ++ kwt "object" :: UId name :: tm2).
-  exists [D1; D2], [1%nat; 1%nat]. split; [|split; [discriminate|repeat constructor]].
+  exists [D1; D2], [1%nat; 1%nat]. split; [|split; [discriminate|split; [repeat constructor|]]].
+  2:{ constructor; [apply nopkg_kw; reflexivity|]. constructor; [|constructor]. exists (lit "object"), (UId name :: tm2). split; reflexivity. }
   exists (docs_raw docs ++ kwt "sealed" :: kwt "trait" :: UId name :: gens_toks gs ++
           UP 123 :: UNl :: kwt "def" :: UId (lit "serialName") :: UP 58 :: UId (lit "String") :: UNl :: UP 125 :: UNl :: kwt "object" :: UId name ::
           UP 123 :: UNl :: vraw ++ [UP 125; UNl; UNl]).
@@ -722,7 +730,7 @@ Proof.
   - intros (H1 & H2 & H3 & H4 & H5). apply ps_case_class; assumption.
   - intros (H1 & H2). apply ps_empty_class; assumption.
   - intros (H1 & H2 & H3 & H4). apply ps_enum; assumption.
-  - intros (Hne & Hl). destruct (ps_helper_lines l Hl) as (c & n & Hps & Hlen & Hn).
+  - intros (Hne & Hl). destruct (ps_helper_lines l Hl) as (c & n & Hps & Hlen & Hn & Hk).
     exists (c ++ []), (n ++ []). split; [cbn [sc_render_decl]; apply ps_app; [exact Hps|apply ps_blank_line]|].
-    rewrite !app_nil_r. split; [|exact Hn]. destruct c; [destruct l; [congruence|discriminate]|discriminate].
+    rewrite !app_nil_r. split; [|split; [exact Hn|exact Hk]]. destruct c; [destruct l; [congruence|discriminate]|discriminate].
 Qed.
